@@ -26,7 +26,8 @@ def stress_cases(ctx, res, n):
 
 def run(ctx):
     thorough = ctx.tier == "thorough"
-    for cfg in ["ConcMC_sub_val.cfg", "ConcMC_sub_coll.cfg", "ConcMC_lossy_val.cfg", "ConcMC_lossy_coll.cfg"] + \
+    for cfg in ["ConcMC_sub_val.cfg", "ConcMC_sub_coll.cfg", "ConcMC_lossy_val.cfg", "ConcMC_lossy_coll.cfg",
+                "ConcMC_gc_coll.cfg"] + \
             (["ConcMC_sub2_coll.cfg", "ConcMC_sub_val3.cfg"] if thorough else []):
         ctx.mc("ConcMC", cfg, workers=vf.NCPU, timeout=3000)
     cases = []
@@ -35,9 +36,11 @@ def run(ctx):
         cases += conc_common.gen(ctx, "ConcGen_sub_coll.cfg", "coll", timeout=1800)
         cases += conc_common.gen(ctx, "ConcGen_sub2_coll.cfg", "coll", simulate="num=40000", timeout=1800)
         cases += conc_common.gen(ctx, "ConcGen_sub_val3.cfg", "val", simulate="num=40000", timeout=1800)
+        cases += conc_common.gen(ctx, "ConcGen_gc_coll.cfg", "coll", simulate="num=40000", timeout=1800)
         cases += conc_common.gen(ctx, "ConcGen_lossy_val.cfg", "val", timeout=1800)
         cases += conc_common.gen(ctx, "ConcGen_lossy_coll.cfg", "coll", timeout=1800)
     else:
+        cases += conc_common.gen(ctx, "ConcGen_gc_coll.cfg", "coll", simulate="num=1000")
         cases += conc_common.gen(ctx, "ConcGen_lossy_val.cfg", "val", simulate="num=600")
         cases += conc_common.gen(ctx, "ConcGen_lossy_coll.cfg", "coll", simulate="num=1200")
         cases += conc_common.gen(ctx, "ConcGen_sub_val.cfg", "val", simulate="num=1200")
@@ -47,12 +50,15 @@ def run(ctx):
     if len(cases) < 500:
         raise vf.Inconclusive("only %d schedules generated" % len(cases))
     # counterexample schedules of the unordered-publication variant (the defect the publication mutex repairs)
-    att = conc_common.attacks(ctx, "ConcGen_sub_val_pinned.cfg", "val", "converged", 2000 if thorough else 35,
-                              simulate=None if thorough else "num=6000")
-    att += conc_common.attacks(ctx, "ConcGen_sub_coll_pinned.cfg", "coll", "converged", 2000 if thorough else 35,
-                               simulate=None if thorough else "num=6000")
+    att = conc_common.attacks(ctx, "ConcGen_sub_val_pinned.cfg", "val", "converged", 2000 if thorough else 20,
+                              simulate=None if thorough else "num=3000")
+    att += conc_common.attacks(ctx, "ConcGen_sub_coll_pinned.cfg", "coll", "converged", 2000 if thorough else 20,
+                               simulate=None if thorough else "num=3000")
     # ... and of the variant whose subscriptions are not serialised with commit+publication (lossy stale item)
-    att += conc_common.attacks(ctx, "ConcGen_lossy_attack.cfg", "coll", "converged", 2000 if thorough else 40)
+    att += conc_common.attacks(ctx, "ConcGen_lossy_attack.cfg", "coll", "converged", 2000 if thorough else 25)
+    # ... and of the variant whose bus is garbage-collected from the copy taken when the publication began
+    att += conc_common.attacks(ctx, "ConcGen_gc_coll_pinned.cfg", "coll", "noMissed", 2000 if thorough else 25,
+                               simulate="num=%d" % (60000 if thorough else 5000))
     if thorough:
         att += conc_common.attacks(ctx, "ConcGen_lossy_coll_pinned.cfg", "coll", "converged", 2000)
     ctx.cov["attack_schedules"] = len(att)
